@@ -154,6 +154,84 @@ def run_cdist(mutate=None):
     return dict(obls=obls, paths=n, sources=[L.info()], consistent=sym.consistent())
 
 
+def run_field_at_position(mutate=None, prefixes=("C20.", "C08.")):
+    """Solution.field_at_position: call contract towards biot_savart_2d (units of the DEVICE, not defaults) and total = sum of parts"""
+    from pyvc import instrument, vc as vcm
+    SOL = "tdgl.solution.solution"
+    mut = [(o, n) for (m, o, n) in (mutate or []) if m == SOL]
+    L = instrument.load(SOL, mutate=mut, vc=vcm.VC())
+
+    def body():
+        import numpy as np
+        c = sym.ctx()
+        c.record_prefixes = tuple(prefixes)
+        calls = []
+
+        class H:
+            def __init__(self, tag):
+                self.tag = tag
+
+            def __add__(self, o):
+                return H(("sum", self.tag, getattr(o, "tag", o)))
+            __radd__ = lambda self, o: self if o == 0 else H(("sum", o, self.tag))
+
+        def bs(x, y, z, **kw):
+            calls.append(dict(x=x, y=y, z=z, **kw))
+            return H(("H", len(calls)))
+        conv = []
+
+        def convert_field(Hv, units, old_units=None, ureg=None, with_units=True):
+            conv.append(dict(H=Hv, units=units, old_units=old_units, ureg=ureg))
+            return H(("B", Hv.tag))
+        L.ns["biot_savart_2d"] = bs
+        L.ns["convert_field"] = convert_field
+
+        class Dens:
+            def __init__(self, name):
+                self.name = name
+                self.asked = None
+
+            def to(self, u):
+                self.asked = u
+                return type("M", (), {"magnitude": ("J", self.name, u)})()
+        for lu, cu in (("um", "uA"), ("nm", "mA"), ("mm", "nA")):
+            for vector in (False, True):
+                del calls[:], conv[:]
+                Real = L["Solution"]
+                s = Real.__new__(Real)
+                areas = np.array([0.5, 0.25, 0.125])
+                xi = 0.4
+                dev = type("Dev", (), {})()
+                dev.ureg = "UREG"
+                dev.points = np.array([[0.0, 0.0], [1.0, 0.0], [0.0, 1.0]])
+                dev.mesh = type("M", (), {"areas": areas})()
+                dev.coherence_length = type("Qx", (), {"magnitude": xi})()
+                dev.length_units = lu
+                dev.layer = type("Lay", (), {"z0": 0.125})()
+                dev.film = type("F", (), {"contains_points": lambda self_, p: np.zeros(len(p), dtype=bool)})()
+                s.device = dev
+                s._current_units, s._field_units = cu, "mT"
+                s.supercurrent_density, s.normal_current_density = Dens("Ks"), Dens("Kn")
+                pos = np.array([[0.3, 0.2], [1.5, -0.5]])
+                tot = s.field_at_position(pos, zs=0.75, vector=vector)
+                parts = s.field_at_position(pos, zs=0.75, vector=vector, return_sum=False)
+                tag = f"{lu},{cu},{'vector' if vector else 'z'}"
+                first = calls[:2]
+                ok_units = all(k.get("length_units", "um") == lu and k.get("current_units", "uA") == cu for k in calls)
+                check(f"C08.physical_outputs.field_uses_device_length_and_current_units[{tag}]", z3.BoolVal(ok_units), note=str([(k.get("length_units"), k.get("current_units")) for k in calls]))
+                check(f"C20.field_at_position.sources_are_mesh_sites_areas_sheet_z0[{tag}]",
+                      z3.BoolVal(all(k["positions"] is dev.points and np.array_equal(k["areas"], areas * xi ** 2) and k["z0"] == 0.125 and k["vector"] is vector for k in calls)))
+                check(f"C20.field_at_position.current_densities_converted_to_current_per_length_units[{tag}]",
+                      z3.BoolVal(first[0]["current_densities"] == ("J", "Ks", f"{cu} / {lu}") and first[1]["current_densities"] == ("J", "Kn", f"{cu} / {lu}")))
+                check(f"C20.field_at_position.evaluation_points_passed_through[{tag}]", z3.BoolVal(all(np.array_equal(k["x"], pos[:, 0]) and np.array_equal(k["y"], pos[:, 1])
+                                                                                                       and np.array_equal(k["z"], np.array([0.75, 0.75])) for k in calls)))
+                check(f"C20.field_at_position.converted_from_tesla[{tag}]", z3.BoolVal(all(cv["old_units"] == "tesla" and cv["units"] == "mT" and cv["ureg"] == "UREG" for cv in conv)))
+                check(f"C20.total_is_sum_of_supercurrent_and_normal_parts[{tag}]", z3.BoolVal(tot.tag == ("sum", ("B", ("H", 1)), ("B", ("H", 2)))
+                                                                                             and parts.supercurrent.tag == ("B", ("H", 3)) and parts.normal_current.tag == ("B", ("H", 4))))
+    obls, n = sym.explore(body)
+    return dict(obls=obls, paths=n, sources=[L.info()], consistent=True)
+
+
 KERNELS = [("sqeuclidean_distance_2d", 2, False), ("sqeuclidean_distance_3d", 3, False), ("euclidean_distance_2d", 2, True), ("euclidean_distance_3d", 3, True)]
 
 
@@ -163,6 +241,7 @@ def units():
     for nm, dim, root in KERNELS:
         us.append(Unit(nm, DM + ":" + nm, run_dist(nm, dim, root), props=["C20", "C09"], timeout=300))
     us.append(Unit("cdist", DM + ":cdist", run_cdist, props=["C20"], timeout=300))
+    us.append(Unit("Solution.field_at_position[call contract]", "tdgl.solution.solution:Solution.field_at_position", run_field_at_position, props=["C20", "C08"], timeout=300))
     return us
 
 
